@@ -28,8 +28,12 @@ def execute(case, extra_monitors=(), exc_allow=(), replay=None, phases=(),
     boundaries.  Returns a Run."""
     r = Run()
     holder = []
+    from mvf import contracts
+    contracts.drain()
     w = world_mod.World(case, replay=replay,
                         max_steps=max_steps or case.get('max_steps', 3000))
+    if case.get('yield_tx') is False:
+        w.coop.yield_tx = False
     holder.append(w)
     w.monitors[:] = mon.universal(lambda: holder[0], exc_allow) + \
         list(extra_monitors)
@@ -50,7 +54,8 @@ def execute(case, extra_monitors=(), exc_allow=(), replay=None, phases=(),
         wf_input = st.get('input')
         if wf_input is None and P:
             wf_input = dict(P.get('input') or {})
-        w.start(wf_name, wf_input, **(st.get('params') or {}))
+        w.start(wf_name, wf_input, wf_ex_id=st.get('wf_ex_id'),
+                **(st.get('params') or {}))
         ph = list(phases)
         if auto_resume:
             ph = ph + [_auto_resume] * 4
@@ -72,10 +77,18 @@ def execute(case, extra_monitors=(), exc_allow=(), replay=None, phases=(),
     r.nf = nf_mod.normal_form(rec.rows)
     r.state_nf = nf_mod.normal_form(rec.rows, state_only=True)
     r.violations = w.violations()
+    from mvf import contracts
+    cfail, cev = contracts.drain()
+    r.violations.extend(v for v in cfail if v.get('prop'))
+    if any(v.get('mech') == 'contract-crash' for v in cfail):
+        r.inconclusive = 'contract crashed: %s' % cfail[0]['msg']
+    r.contract_evals = cev
     if rec.counts.get('MONITOR_CRASH'):
         r.inconclusive = 'monitor crashed: %s' % (rec.monitor_crash or '')[-800:]
     r.events = dict(rec.counts)
     r.mon_evals = {m.name: m.evaluations for m in w.monitors}
+    for k, v in r.contract_evals.items():
+        r.mon_evals['contract:' + k] = v
     r.ihash = w.interleaving_hash()
     r.steps = w.step_no
     r.choices = list(w.choices)
@@ -121,3 +134,25 @@ def merge_counts(dst, src):
     for k, v in src.items():
         dst[k] = dst.get(k, 0) + v
     return dst
+
+
+def has_early_failed_join(nf):
+    """A join that fails early ("Failed by tasks: [...]") sees - and names -
+    whatever its other inbound branches had done by then: its context and
+    message are racy by design."""
+    for w in nf:
+        for t in w['tasks']:
+            if (t.get('state_info') or '').startswith('Failed by tasks'):
+                return True
+            for c in t['children']:
+                if has_early_failed_join([c[1]]):
+                    return True
+    return False
+
+
+def compare_runs(base, run, det):
+    """Full normal forms on the deterministic fragment, states otherwise."""
+    if det and not has_early_failed_join(base.nf) and \
+            not has_early_failed_join(run.nf):
+        return nf_mod.diff(base.nf, run.nf)
+    return nf_mod.diff(base.state_nf, run.state_nf)
